@@ -111,6 +111,22 @@ def run(ctx):
         for k in api:
             if line.startswith("A " + k):
                 api[k] += 1
+    # (2b) every other fallible API call, on its success path and a provoked failure path: NULL / false <=> error object set,
+    # non-empty message, and the accessors read back what went in
+    if not ctx.replay:
+        import os
+        rc, out, err = common.run_lines(h.exe, ["P %s %s" % (zwcorr.hx(os.path.join(common.REPO, "tests", "twocus")),
+                                                            zwcorr.hx("/nonexistent/zwv-file"))], timeout=600, args=[str(h.budget), "30"])
+        plines = [l for l in out if l.startswith("P ")]
+        for l in plines:
+            if "CONTRACT" in l:
+                ctx.violation("API contract broken: %s" % l, {"stream": "C14-api-calls", "input": {"call": l.split()[2]},
+                              "got": l, "theorem": "ZwVerif.C14.capture_contract"})
+        if rc != 0 or len(plines) < 30:
+            ctx.violation("the API call sweep died (rc=%d) after %d calls: %s" % (rc, len(plines), (err or "")[-300:]),
+                          {"stream": "C14-api-calls", "input": {"call": plines[-1] if plines else None}, "stderr": (err or "")[-2000:]})
+        ctx.cov["api_calls_checked"] = len(plines)
+        ctx.cov["api_calls_failing_paths"] = len([l for l in plines if l.startswith("P err")])
     # (3) very long inputs (parser stack limits): the implementation alone must answer, not crash
     longs = [b"1 " * 12000, b"(" * 6000 + b")" * 6000, b'"%( ' + b"1 " * 12000 + b' %)"', b"[" * 3000 + b"]" * 3000,
              b"1 " * 9990 + b"add", b"(1, " * 4000 + b"1" + b")" * 4000, b"?(" * 5200 + b")" * 5200, b"dup " * 50000,
